@@ -21,6 +21,8 @@ for c in m["checks"]:
         tech += "; source ties: the model's functions proved equal to the meaning, under the interpreter GoSem, of syntax trees regenerated from the Go source on every run"
     if srcl:
         tech += "; source-level theorems: the property stated about that meaning with no model function in the conclusion (Properties/" + pid + "Source.lean)"
+    if pid == "C16":
+        tech += "; Clone: its body regenerated on every run as a program of the ownership language SJ.Own (tools/extract/clone.go, a printer that refuses anything outside the subset) and the independence theorems proved about that program"
     tech += "; constants, tables, switch case lists and scalar assembly fragments regenerated from the source; differential correspondence of model and implementation (suites: " + ", ".join(cfg["suites"]) + ") with spec oracles, which also searches for a failing input when a tie or proof breaks"
     c["technique"] = tech
 json.dump(m, open(p, "w"), indent=1, ensure_ascii=False)
